@@ -371,6 +371,23 @@ def run_case(case):
                         f'{hs[i].loads - before[i]} time(s)', expect_load,
                         hs[i].loads - before[i], was_cached=was_loaded[i])
                 break
+            if cc and cur is not None and cur != i and cur in nested:
+                # the target's load read the handle that is being left and
+                # cleared: whether it is emptied before or after that read
+                # is not stated (0 or 1 load, cached either way)
+                n = hs[cur].loads - before[cur]
+                res.stats['dontcare_left_handle_read_by_target_load'] += 1
+                if n not in (0, 1):
+                    res.div(at, 'load-count', f'switch loaded the handle '
+                            f'being left {n} times', '0 or 1', n)
+                    break
+                while cur in nested:
+                    nested.remove(cur)
+                loaded[cur] = bool(hs[cur].cached)
+                if n:
+                    epochs[cur] += 1
+                    paths_in_epoch[cur] = set()
+                before[cur] = hs[cur].loads
             if not absorb_nested(at, i, before):
                 break
             for j, h in enumerate(hs):
